@@ -16,6 +16,12 @@ package cdc
 // model has nothing to emit, nothing may arrive within 20 ms.
 //
 // Domain: indexes are Raft log indexes (< 2^62 here; idx+1 never wraps).
+// An item enqueued at or below a bound that was already passed to DeleteRange
+// in the same open (possible when that bound was above the highest index) is
+// stored and durable and must be removed by a later DeleteRange covering it;
+// only whether it is emitted before the next reopen is left open (the code
+// emits it iff nothing had been emitted in this open; callers filter such
+// events).
 
 import (
 	"bufio"
@@ -47,7 +53,30 @@ type c26Model struct {
 	items    map[uint64][]byte
 	highest  uint64
 	nextFrom uint64
-	delBound uint64 // largest DeleteRange argument so far (generator domain only)
+	delBound uint64 // largest DeleteRange argument so far (labels only)
+	// uncertain: items stored at or below a bound that had already been passed
+	// to DeleteRange in this open (idx < nextFrom when stored). They are stored
+	// and durable (Len/FirstKey/DeleteRange/reopen are judged), but the
+	// statement does not say whether they are still due in the current open:
+	// they may be emitted (in increasing order) or not until reopen.
+	uncertain   map[uint64]bool
+	lastEmitted uint64
+}
+
+func (m *c26Model) reopen() {
+	m.nextFrom, m.lastEmitted = 0, 0
+	m.uncertain = map[uint64]bool{}
+}
+
+// pendingUncertain: uncertain items that could still be emitted in this open.
+func (m *c26Model) pendingUncertain() []uint64 {
+	var out []uint64
+	for _, k := range m.keys() {
+		if m.uncertain[k] && k > m.lastEmitted {
+			out = append(out, k)
+		}
+	}
+	return out
 }
 
 func (m *c26Model) keys() []uint64 {
@@ -74,6 +103,12 @@ func (m *c26Model) enqueue(idx uint64, data []byte) bool {
 	}
 	m.items[idx] = append([]byte{}, data...)
 	m.highest = idx
+	if idx < m.nextFrom {
+		if m.uncertain == nil {
+			m.uncertain = map[uint64]bool{}
+		}
+		m.uncertain[idx] = true
+	}
 	return true
 }
 
@@ -82,6 +117,7 @@ func (m *c26Model) deleteRange(i uint64) int {
 	for k := range m.items {
 		if k <= i {
 			delete(m.items, k)
+			delete(m.uncertain, k)
 			n++
 		}
 	}
@@ -95,15 +131,18 @@ func (m *c26Model) deleteRange(i uint64) int {
 }
 
 func (m *c26Model) clone() *c26Model {
-	c := &c26Model{items: map[uint64][]byte{}, highest: m.highest, nextFrom: m.nextFrom, delBound: m.delBound}
+	c := &c26Model{items: map[uint64][]byte{}, highest: m.highest, nextFrom: m.nextFrom, delBound: m.delBound, uncertain: map[uint64]bool{}, lastEmitted: m.lastEmitted}
 	for k, v := range m.items {
 		c.items[k] = v
+	}
+	for k := range m.uncertain {
+		c.uncertain[k] = true
 	}
 	return c
 }
 
 func (m *c26Model) String() string {
-	return fmt.Sprintf("model{keys=%v highest=%d nextFrom=%d}", m.keys(), m.highest, m.nextFrom)
+	return fmt.Sprintf("model{keys=%v highest=%d nextFrom=%d maybe-due=%v}", m.keys(), m.highest, m.nextFrom, m.pendingUncertain())
 }
 
 // c26CheckQueries compares every query with the model. Returns sig,msg.
@@ -129,51 +168,61 @@ func c26CheckQueries(q *Queue, m *c26Model) (string, string) {
 		return "C26/highest-mismatch", fmt.Sprintf("HighestKey()=%d,%v, %s", hk, err, m)
 	}
 	_, has := m.next()
-	if got := q.HasNext(); got != has {
+	if got := q.HasNext(); got != has && !(got && !has && len(m.pendingUncertain()) > 0) {
 		return "C26/hasnext-mismatch", fmt.Sprintf("HasNext()=%v, %s", got, m)
 	}
 	return "", ""
 }
 
-// c26Consume reads one event according to the model. Returns sig,msg.
+// c26Consume reads one event according to the model (and, before it, any
+// "maybe due" items the queue chooses to emit). Returns sig,msg.
 func c26Consume(q *Queue, m *c26Model) (string, string) {
-	want, has := m.next()
-	if has {
+	for {
+		want, has := m.next()
+		unc := m.pendingUncertain()
+		wait := c26Block
+		if has {
+			wait = c26Proceed
+		}
 		select {
 		case ev, ok := <-q.C:
 			if !ok || ev == nil {
-				return "C26/item-not-emitted", fmt.Sprintf("events channel closed/nil while item %d is due, %s", want, m)
+				return "C26/item-not-emitted", fmt.Sprintf("events channel closed/nil on an open queue, %s", m)
 			}
-			if ev.Index != want {
-				sig := "C26/emitted-out-of-order"
-				if _, stored := m.items[ev.Index]; !stored {
-					sig = "C26/emitted-deleted-or-unknown"
-				} else if ev.Index < m.nextFrom {
-					sig = "C26/emitted-twice"
+			stored, isStored := m.items[ev.Index]
+			isUnc := false
+			for _, u := range unc {
+				if u == ev.Index {
+					isUnc = true
 				}
-				return sig, fmt.Sprintf("received index %d, expected %d, %s", ev.Index, want, m)
 			}
-			if !bytes.Equal(ev.Data, m.items[want]) {
-				return "C26/data-mismatch", fmt.Sprintf("index %d carries %x, stored %x", want, ev.Data, m.items[want])
+			switch {
+			case has && ev.Index == want, isUnc:
+			case !isStored:
+				return "C26/emitted-deleted-or-unknown", fmt.Sprintf("received index %d which is not stored, %s", ev.Index, m)
+			case ev.Index <= m.lastEmitted && m.lastEmitted != 0:
+				return "C26/emitted-twice", fmt.Sprintf("received index %d again or out of order (last emitted %d), %s", ev.Index, m.lastEmitted, m)
+			case !has:
+				return "C26/emitted-twice", fmt.Sprintf("received index %d although nothing is left to emit, %s", ev.Index, m)
+			default:
+				return "C26/emitted-out-of-order", fmt.Sprintf("received index %d, expected %d, %s", ev.Index, want, m)
+			}
+			if !bytes.Equal(ev.Data, stored) {
+				return "C26/data-mismatch", fmt.Sprintf("index %d carries %x, stored %x", ev.Index, ev.Data, stored)
+			}
+			m.lastEmitted = ev.Index
+			if isUnc {
+				delete(m.uncertain, ev.Index)
+				continue // the op was about the next certain item (or about silence)
 			}
 			m.nextFrom = want + 1
 			return "", ""
-		case <-time.After(c26Proceed):
-			return "C26/item-not-emitted", fmt.Sprintf("item %d is stored and not yet emitted but nothing arrived within %v, %s", want, c26Proceed, m)
+		case <-time.After(wait):
+			if has {
+				return "C26/item-not-emitted", fmt.Sprintf("item %d is stored and not yet emitted but nothing arrived within %v, %s", want, c26Proceed, m)
+			}
+			return "", ""
 		}
-	}
-	select {
-	case ev, ok := <-q.C:
-		if !ok || ev == nil {
-			return "C26/emitted-deleted-or-unknown", fmt.Sprintf("events channel closed on an open queue, %s", m)
-		}
-		sig := "C26/emitted-deleted-or-unknown"
-		if _, stored := m.items[ev.Index]; stored {
-			sig = "C26/emitted-twice"
-		}
-		return sig, fmt.Sprintf("received index %d although nothing is left to emit, %s", ev.Index, m)
-	case <-time.After(c26Block):
-		return "", ""
 	}
 }
 
@@ -227,19 +276,19 @@ func c26GenOp(rt *rapid.T, m *c26Model, kinds []string) c26Op {
 				op.Idx += uint64(rapid.Uint32().Draw(rt, "bigjump")) << uint(rapid.IntRange(0, 28).Draw(rt, "sh"))
 			}
 		}
-		if op.Idx > m.highest && op.Idx <= m.delBound {
-			// Domain: the CDC service never offers an index at or below a bound it
-			// has already passed to DeleteRange (it filters events <= high
-			// watermark), and the property does not say whether such an item is
-			// still due in the current open. Move the index above the bound.
-			op.Idx = m.delBound + 1 + op.Idx%3
+		if op.Idx > m.highest && op.Idx < m.nextFrom {
+			// at or below a bound already passed to DeleteRange in this open:
+			// stored and durable, emission in this open not judged (see model)
 			op.Adjusted = true
 		}
 		n := rapid.SampledFrom([]int{0, 1, 3, 8, 8, 40, 40, 300, 5000}).Draw(rt, "len")
 		op.Data = rapid.SliceOfN(rapid.Byte(), n, n).Draw(rt, "data")
 	case "del":
 		var cands []uint64
-		cands = append(cands, 0, m.highest, m.highest+1, m.highest+7)
+		cands = append(cands, 0, m.highest, m.highest, m.highest+1, m.highest+7)
+		if m.delBound > m.highest {
+			cands = append(cands, m.delBound, m.delBound-1)
+		}
 		if m.nextFrom > 0 {
 			cands = append(cands, m.nextFrom-1, m.nextFrom)
 		}
@@ -256,11 +305,12 @@ func c26GenOp(rt *rapid.T, m *c26Model, kinds []string) c26Op {
 
 func TestVerif_C26_Model(t *testing.T) {
 	rec := vstat.New(t, "C26", "model",
-		"sequences of 5..45 ops on one on-disk Queue compared step by step with the sequential model: enqueue(idx,data) with idx aimed at highest+1..3, the highest-ever index, below it, stored/deleted indexes, small absolute values and large jumps (data 0..5000 bytes); deleteRange at 0, around every stored key (k-1,k,k+1), around the emission cursor, at and above highest; consume one event (10s when one is due, else nothing may arrive within 20ms); drain; all queries (Len, Empty, FirstKey, HighestKey, HasNext); close+reopen; non-trivial = the sequence contains a reopen, an ignored enqueue (idx <= highest-ever), a deleteRange that removed something and one that removed nothing, and at least 3 consumed events; distinct by op sequence")
+		"sequences of 5..45 ops on one on-disk Queue compared step by step with the sequential model: enqueue(idx,data) with idx aimed at highest+1..3, the highest-ever index, below it, stored/deleted indexes, small absolute values and large jumps (data 0..5000 bytes); deleteRange at 0, around every stored key (k-1,k,k+1), around the emission cursor, at and above highest; consume one event (10s when one is due, else nothing may arrive within 20ms); drain; all queries (Len, Empty, FirstKey, HighestKey, HasNext); close+reopen; enqueues at or below an earlier DeleteRange bound are generated and judged for storage, deletion and reopen, only their emission in the same open is left open; non-trivial = the sequence contains a reopen, an ignored enqueue (idx <= highest-ever), a deleteRange that removed something and one that removed nothing, and at least 3 consumed events; distinct by op sequence")
 	rapid.Check(t, func(rt *rapid.T) {
 		dir, err := os.MkdirTemp("", "c26-")
 		if err != nil {
-			t.Skip("no temp dir")
+			rec.Label("inconclusive:no-temp-dir")
+			return
 		}
 		defer os.RemoveAll(dir)
 		path := filepath.Join(dir, "fifo.db")
@@ -334,7 +384,7 @@ func TestVerif_C26_Model(t *testing.T) {
 				if err != nil {
 					fail("C26/open-failed", "reopen failed: %v", err)
 				}
-				m.nextFrom = 0
+				m.reopen()
 				reopens++
 				reopenedSinceEnq = true
 				if len(m.items) == 0 && m.highest > 0 {
@@ -386,7 +436,7 @@ func TestVerif_C26_Model(t *testing.T) {
 			rec.Label("delete-beyond-highest")
 		}
 		if adjusted > 0 {
-			rec.Label("adjusted:enqueue-moved-above-deleted-bound")
+			rec.Label("enqueue-at-or-below-deleted-bound(emission-not-judged)")
 		}
 	})
 }
@@ -452,7 +502,7 @@ func TestVerif_C26_KillChild(t *testing.T) {
 
 func c26SameState(q *Queue, m *c26Model) (string, string) {
 	mm := m.clone()
-	mm.nextFrom = 0
+	mm.reopen()
 	if sig, msg := c26CheckQueries(q, mm); sig != "" {
 		return sig, msg
 	}
@@ -471,7 +521,8 @@ func TestVerif_C26_Kill(t *testing.T) {
 	rapid.Check(t, func(rt *rapid.T) {
 		dir, err := os.MkdirTemp("", "c26k-")
 		if err != nil {
-			t.Skip("no temp dir")
+			rec.Label("inconclusive:no-temp-dir")
+			return
 		}
 		defer os.RemoveAll(dir)
 		path := filepath.Join(dir, "fifo.db")
@@ -611,7 +662,7 @@ func TestVerif_C26_Kill(t *testing.T) {
 			}
 			fail(sig, "state after kill (Len=%d) matches none of the model states after %d acknowledged ops plus 0..%d released ops; after acked ops: %s (%s); after all released ops: %s", q.Len(), k, burst, states[k], msgA, states[k+burst])
 		}
-		final.nextFrom = 0
+		final.reopen()
 		// the two candidate states can have equal queries but different data: emission decides
 		for {
 			_, has := final.next()
@@ -677,7 +728,8 @@ func TestVerif_C26_Stress(t *testing.T) {
 	rapid.Check(t, func(rt *rapid.T) {
 		dir, err := os.MkdirTemp("", "c26s-")
 		if err != nil {
-			t.Skip("no temp dir")
+			rec.Label("inconclusive:no-temp-dir")
+			return
 		}
 		defer os.RemoveAll(dir)
 		q, err := NewQueue(filepath.Join(dir, "fifo.db"))
@@ -875,5 +927,195 @@ func TestVerif_C26_Stress(t *testing.T) {
 		}
 		rec.LabelN("received", len(received))
 		rec.LabelN("enqueued", total)
+	})
+}
+
+// ---------------------------------------------------------------------------
+// Enqueue requests that wait together. The manager goroutine is parked on an
+// unread query response (white-box: the request is put on queryChan directly),
+// then 2..8 Enqueue calls are issued from separate goroutines one after the
+// other, each only after the previous one is seen in the request channel, so
+// the order in which the requests were accepted is known. After release the
+// queue must be in the state the sequential model reaches by applying the
+// enqueues in that order ("ignores any enqueue at or below the highest index
+// it has ever stored" - ever includes the requests accepted just before).
+// Assumption (stated in checks.d): requests take effect in the order in which
+// they entered the queue's request channel (single-goroutine manager).
+
+func TestVerif_C26_Batch(t *testing.T) {
+	rec := vstat.New(t, "C26", "batch",
+		"1..3 rounds per case on one on-disk Queue: the manager goroutine is parked on an unread query response, 2..8 Enqueue calls (indexes highest-2..highest+6, so decreasing/equal/increasing runs and duplicates with different data are common) are queued from separate goroutines in a known order, the manager is released; afterwards queries, emission, a generated DeleteRange, and after the last round close+reopen with full emission are compared with the sequential model applied in acceptance order; non-trivial = some round queued a lower or equal index after a higher one that was itself above the previous highest; distinct by rounds")
+	rapid.Check(t, func(rt *rapid.T) {
+		dir, err := os.MkdirTemp("", "c26b-")
+		if err != nil {
+			rec.Label("inconclusive:no-temp-dir")
+			return
+		}
+		defer os.RemoveAll(dir)
+		path := filepath.Join(dir, "fifo.db")
+		q, err := NewQueue(path)
+		if err != nil {
+			rt.Fatalf("%s", rec.Violation("C26/open-failed", "NewQueue: %v", err))
+		}
+		defer func() { q.Close() }()
+		m := &c26Model{items: map[uint64][]byte{}}
+		m.reopen()
+		var trace []string
+		fail := func(sig, f string, a ...any) {
+			rt.Fatalf("%s", rec.Violation(sig, f+" :: trace=%s", append(a, strings.Join(trace, " "))...))
+		}
+		pre := rapid.IntRange(0, 3).Draw(rt, "pre")
+		for i := 0; i < pre; i++ {
+			idx := m.highest + uint64(rapid.IntRange(1, 3).Draw(rt, "up"))
+			d := []byte(fmt.Sprintf("pre%d", idx))
+			trace = append(trace, fmt.Sprintf("enq(%d)", idx))
+			if err := q.Enqueue(&Event{Index: idx, Data: d}); err != nil {
+				fail("C26/enqueue-error", "Enqueue: %v", err)
+			}
+			m.enqueue(idx, d)
+		}
+		rounds := rapid.IntRange(1, 3).Draw(rt, "rounds")
+		inversions := 0
+		for r := 0; r < rounds; r++ {
+			n := rapid.IntRange(2, 8).Draw(rt, "n")
+			type pend struct {
+				idx  uint64
+				data []byte
+				errc chan error
+			}
+			var ps []*pend
+			for i := 0; i < n; i++ {
+				base := int64(m.highest) + int64(rapid.IntRange(-2, 6).Draw(rt, "delta"))
+				if base < 0 {
+					base = 0
+				}
+				ps = append(ps, &pend{idx: uint64(base), data: []byte(fmt.Sprintf("r%d.%d@%d", r, i, base)), errc: make(chan error, 1)})
+			}
+			park := queryReq{respChan: make(chan queryResp)}
+			select {
+			case q.queryChan <- park:
+			case <-time.After(c26Proceed):
+				rec.Label("inconclusive:manager-did-not-take-query")
+				return
+			}
+			var tr []string
+			ok := true
+			for i, p := range ps {
+				go func(p *pend) { p.errc <- q.Enqueue(&Event{Index: p.idx, Data: p.data}) }(p)
+				deadline := time.Now().Add(c26Proceed)
+				for len(q.enqueueChan) != i+1 {
+					if time.Now().After(deadline) {
+						ok = false
+						break
+					}
+					time.Sleep(100 * time.Microsecond)
+				}
+				if !ok {
+					break
+				}
+				tr = append(tr, fmt.Sprint(p.idx))
+			}
+			<-park.respChan // release the manager
+			if !ok {
+				for _, p := range ps {
+					select {
+					case <-p.errc:
+					case <-time.After(time.Second):
+					}
+				}
+				rec.Label("inconclusive:request-not-seen-in-channel")
+				return
+			}
+			trace = append(trace, "queued["+strings.Join(tr, ",")+"]")
+			for _, p := range ps {
+				select {
+				case err := <-p.errc:
+					if err != nil {
+						fail("C26/enqueue-error", "Enqueue(%d): %v", p.idx, err)
+					}
+				case <-time.After(c26Proceed):
+					fail("C26/enqueue-error", "Enqueue(%d) did not return within %v after the manager was released", p.idx, c26Proceed)
+				}
+			}
+			runMax := m.highest
+			for _, p := range ps {
+				if p.idx <= runMax && p.idx > m.highest {
+					inversions++ // lower/equal after a higher one, both above the old highest
+				}
+				if p.idx > runMax {
+					runMax = p.idx
+				}
+			}
+			for _, p := range ps {
+				m.enqueue(p.idx, p.data)
+			}
+			if sig, msg := c26CheckQueries(q, m); sig != "" {
+				fail(sig, "after the queued enqueues took effect: %s", msg)
+			}
+			switch rapid.IntRange(0, 3).Draw(rt, "then") {
+			case 0:
+				trace = append(trace, "consume")
+				if sig, msg := c26Consume(q, m); sig != "" {
+					fail(sig, "%s", msg)
+				}
+			case 1:
+				trace = append(trace, "drain")
+				for {
+					if _, has := m.next(); !has {
+						break
+					}
+					if sig, msg := c26Consume(q, m); sig != "" {
+						fail(sig, "%s", msg)
+					}
+				}
+			case 2:
+				ks := m.keys()
+				if len(ks) > 0 {
+					i := ks[rapid.IntRange(0, len(ks)-1).Draw(rt, "delk")]
+					trace = append(trace, fmt.Sprintf("del(%d)", i))
+					if err := q.DeleteRange(i); err != nil {
+						fail("C26/delete-error", "DeleteRange(%d): %v", i, err)
+					}
+					m.deleteRange(i)
+				}
+			}
+			if sig, msg := c26CheckQueries(q, m); sig != "" {
+				fail(sig, "%s", msg)
+			}
+		}
+		for {
+			if _, has := m.next(); !has {
+				break
+			}
+			if sig, msg := c26Consume(q, m); sig != "" {
+				fail(sig, "drain: %s", msg)
+			}
+		}
+		if sig, msg := c26Consume(q, m); sig != "" {
+			fail(sig, "after drain: %s", msg)
+		}
+		trace = append(trace, "reopen")
+		q.Close()
+		q, err = NewQueue(path)
+		if err != nil {
+			fail("C26/open-failed", "reopen: %v", err)
+		}
+		m.reopen()
+		if sig, msg := c26CheckQueries(q, m); sig != "" {
+			fail(sig, "after reopen: %s", msg)
+		}
+		for {
+			if _, has := m.next(); !has {
+				break
+			}
+			if sig, msg := c26Consume(q, m); sig != "" {
+				fail(sig, "after reopen: %s", msg)
+			}
+		}
+		rec.Case(inversions > 0, strings.Join(trace, " "))
+		rec.Sample(strings.Join(trace, " "))
+		if inversions > 0 {
+			rec.Label("lower-or-equal-queued-after-higher")
+		}
 	})
 }
